@@ -60,11 +60,15 @@ WM_LITMUS = [
 AL_SETUPS = ["-", "A,A,F0,F0", "A,A,A,F0,F0,F0", "A,A,A,F1,F0", "A,A,F1", "A,A,A,F0,F1", "A,A,A,A,F0,F2,F0"]
 AL_DIRECTED = [("A,A,A,F0,F0,F0", "A|A,A,F1"), ("A,A,A,F0,F0,F0", "A,A|A,A,F1"), ("A,A,F0,F0", "A|A,A,F1,A"),
                ("A,A,F0,F0", "A,F0|A,F0"), ("-", "A,F0,A|A,F0,A"), ("A,A,A,F0,F0,F0", "A|A,A,F1|A"),
-               ("A,A,F0", "A|F0"), ("A,A,A,F0,F0", "A,A|F0,A"), ("A,A,F0,F0", "A,A,A|A,F0")]
+               ("A,A,F0", "A|F0"), ("A,A,A,F0,F0", "A,A|F0,A"), ("A,A,F0,F0", "A,A,A|A,F0"),
+               # a deallocate whose CAS fails once while two other pushes complete (version bump per retry)
+               ("-", "A,F0,A,A|A,A,F0,F0,A,A")]
 DB_SETUPS = ["-", "E", "E,E", "E,T0,R", "E,E,T0,R,T1,R", "E,T0,R,E"]
 DB_DIRECTED = [("E", "T0,R|T0,R"), ("E", "T0,R,E|T0,T1"), ("E,T0,R", "E,T1|T0,T1,R"), ("-", "E,T0,R|T0,R,E"),
                ("E,E", "T0,T1,R,R|T1,T0,R,R"), ("E", "T0,R,E,T1,R|T0,T1,T0"), ("E", "T0|T0|T0"),
                ("E,T0", "R,E|T0,T1"),
+               # finish_released retried across two other releases, then the slots are re-emplaced: ids must stay distinct
+               ("E,E,E", "T0,R,E,E|T1,T2,R,R,E,E"), ("E,E,E", "T0,R,E,T4,R,E,E|T1,T2,R,R,E,T3,R"),
                # RAII layer: take into holders, move-assign (both holding / source only / target only / self),
                # move-construct, destroy, then further emplace calls
                ("E,E", "K0.0,K1.1,M0.1,D0,D1,E,E|T0,T1"), ("E", "K0.0,E,E|T0"),
@@ -283,13 +287,22 @@ def main(argv):
     if model:
         mo = chk.run_cases(model, mlines, timeout=1800)
         for pid, l in mo.items():
-            f = dict(x.split("=", 1) for x in l.split()[1:5] if "=" in x)
+            f = dict(x.split("=", 1) for x in l.split()[1:9] if "=" in x)
             states += int(f.get("states", 0))
             trans += int(f.get("trans", 0))
             outs = l.split("outcomes=", 1)[1] if "outcomes=" in l else ""
             model_sets[pid] = (set(outs.split(";")), "trunc=true" in l)
             if int(f.get("stuck", "0")) > 0:
                 chk.broke("correspondence", "model has a stuck terminal state", l[:300])
+            mline = [m for m in mlines if m.split()[0] == pid][0]
+            for key, sig, what in (("regress", "model-version-regress", "the head version of the free list decreases on a push "
+                                    "(version not bumped relative to the head the successful CAS replaced)"),
+                                   ("dupheld", "model-two-owners", "an id value ends up held by two owners"),
+                                   ("dupids", "model-stale-id-matches", "emplace hands out an id equal to an earlier one: the "
+                                    "stale copy matches the new item")):
+                if int(f.get(key, "0")) > 0:
+                    chk.violate(sig, "the model regenerated from the source admits an execution in which " + what +
+                                ": program " + mline, {"level": "model", "program": mline, "count": f.get(key)})
         for m in mlines:
             if m.split()[0] not in mo:
                 chk.broke("harness", "model driver gave no line", m)
@@ -301,6 +314,9 @@ def main(argv):
             "payload": "the winning take did not get the item that was emplaced under this id, or an item held through an "
                        "Accessor was lost / overwritten",
             "stable": "current_thread_id changed during a thread's life",
+            "headmono": "the free-list head version decreased during the run (version must be bumped on every push)",
+            "pushcount": "at quiescence the head version differs from the number of deallocate / finish_released calls "
+                         "(every push must add exactly one, pops none)",
             "foreach-exact": "for_each at quiescence did not report exactly the live values in a sequential history "
                              "(allocate n, free a pattern, reuse)"}
     validated = 0
@@ -337,7 +353,8 @@ def main(argv):
             continue
         for k, v in mon.items():
             if v != "1":
-                chk.violate("mon-" + k, WHAT.get(k, k) + ": " + rep["line"][:300] + " -> " + parts[1][:300], rep)
+                sig = "stale-id-matches" if (k == "stale" and m["kind"] == "DB") else "mon-" + k
+                chk.violate(sig, WHAT.get(k, k) + ": " + rep["line"][:300] + " -> " + parts[1][:300], rep)
         distinct.add((m.get("pid", cid.split(".")[0]), parts[1]))
         if m.get("small") and m.get("pid") in model_sets:
             outs, trunc = model_sets[m["pid"]]
